@@ -79,7 +79,9 @@ def fit_data(draw, s):
             pts.append([float(b), float(b + p)])
         dgms.append(pts)
         forms.append(draw(st.sampled_from(["int", "int", "list"])) if integral else "float")
-    return {"dgms": dgms, "single": k == 1 and draw(st.booleans()), "skew": draw(st.booleans()), "forms": forms}
+    return {"dgms": dgms, "single": k == 1 and draw(st.booleans()), "skew": draw(st.booleans()), "forms": forms,
+            # an empty (0,2) diagram among the fitted ones (ripser returns one whenever a degree has no class): it adds no point to enclose
+            "with_empty": draw(st.integers(0, 4)) == 0}
 
 
 @st.composite
@@ -266,6 +268,9 @@ def run_history(case, ctx):
                     kinds.add("fit_integer_form")
                 else:
                     given.append(a)
+            if op.get("with_empty"):
+                given.insert(len(given) // 2, np.zeros((0, 2)))
+                kinds.add("fit_with_empty_diagram")
             arg = given[0] if (op["single"] and len(given) == 1) else given
             ctx.call(imgr.fit, arg, skew=op["skew"])
             sc = max(scale_of(imgr), max(abs(x) for x in bs + ps))
